@@ -1,6 +1,8 @@
 import Dashu.Driver.Loop
 import Dashu.Model.Text.Bytes
 import Dashu.Model.Text.Float
+import Dashu.Model.Text.Capacity
+import Dashu.Model.Text.ChunksWord
 /-
   Driver of group `text` (C07): integer formatting, parsing, byte and chunk encodings.
   For every case the *required* result (specification side: `digits`/`pad_integral`/grammar/
@@ -48,7 +50,27 @@ def fmtOp (W : Nat) (t fa fl w : String) (z : Int) : Option String := do
   else
     let m := natBytesToStr (fmtModel W t f z)
     let s := natBytesToStr (fmtSpec t f z)
-    pure (flag ("ok " ++ m) ("ok " ++ s) false)
+    -- the bounded-buffer model must not panic and must deliver the same digits (Proofs/Text/Capacity.lean)
+    let bounded := match rawDigitsC W t.radix z.natAbs with
+      | .ok ds => if ds = rawDigits W t.radix z.natAbs then "" else " !model-buffer-mismatch"
+      | .error e => " !model-buffer-panic " ++ (toString (repr e)).replace " " "_"
+    pure (flag ("ok " ++ m) ("ok " ++ s) false ++ bounded)
+
+/-- bounded-buffer run of the digit loops on the body of a literal (sign stripped, zeros stripped) -/
+def boundedParse (W : Nat) (signed : Bool) (s : List Nat) (r : Nat) : String :=
+  if !validRadix r then ""
+  else
+    let body := (splitSign signed s).2
+    if body.all (· == 95) then ""
+    else
+      let t := stripZeros body
+      let show' (x : Except ParseError Nat) : String := match x with
+        | .ok v => "ok " ++ toString v
+        | .error e => "err " ++ e.name
+      match parseCoreC W r t with
+      | .ok v =>
+        if show' v = show' (if isPow2 r then parsePow2 W r t else parseNonPow2 W r t) then "" else " !model-buffer-mismatch"
+      | .error e => " !model-buffer-panic " ++ (toString (repr e)).replace " " "_"
 
 def resInt (r : Except ParseError Int) : String :=
   match r with
@@ -182,10 +204,10 @@ def dispatch : Dispatch := fun W op args =>
   | "i.fmt", [t, fa, fl, w, n] => do fmtOp W t fa fl w (← parseInt n)
   | "u.parse", [s, r] => do
     let s ← parseStr s; let r ← parseDecNat r
-    pure (flag (resInt (parseRadix W false s r)) (resInt (parseRadixSpec false s r)) false)
+    pure (flag (resInt (parseRadix W false s r)) (resInt (parseRadixSpec false s r)) false ++ boundedParse W false s r)
   | "i.parse", [s, r] => do
     let s ← parseStr s; let r ← parseDecNat r
-    pure (flag (resInt (parseRadix W true s r)) (resInt (parseRadixSpec true s r)) false)
+    pure (flag (resInt (parseRadix W true s r)) (resInt (parseRadixSpec true s r)) false ++ boundedParse W true s r)
   | "u.parse_prefix", [s] => do
     let s ← parseStr s
     pure (flag (resIntRadix (parseDefault W false s 10)) (resIntRadix (parseDefaultSpec false s 10)) false)
@@ -233,7 +255,7 @@ def dispatch : Dispatch := fun W op args =>
   | "u.chunks", [n, k] => do
     let n ← parseNat n; let k ← parseDecNat k
     let spec := if k = 0 then "panic ChunkBitsZero" else "ok " ++ chunksStr (chunksSpec n k)
-    let model := match toChunks W n k with
+    let model := match toChunksW W n k with
       | .ok cs => "ok " ++ chunksStr cs
       | .error .chunkBitsZero => "panic ChunkBitsZero"
     pure (flag model spec false)
@@ -241,7 +263,7 @@ def dispatch : Dispatch := fun W op args =>
     let k ← parseDecNat k
     let cs ← cs.mapM parseNat
     let spec := if k = 0 then "panic ChunkBitsZero" else "ok " ++ natToHex (ofChunksSpec k cs)
-    let model := match fromChunks k cs with
+    let model := match fromChunksW W k (cs.map (wordsOf W)) with
       | .ok v => "ok " ++ natToHex v
       | .error .chunkBitsZero => "panic ChunkBitsZero"
     pure (flag model spec false)
